@@ -181,7 +181,7 @@ theorem migrate_in_one_tx :
     (migrateOutsideTx.all (fun st => st.take 5 == ["CREATE", "TABLE", "IF", "NOT", "EXISTS"])) = true ∧
     ((migrateInTx.take 3).all (fun st => (st.drop 2).take 3 == ["IF", "NOT", "EXISTS"])) = true := by decide
 """),
- "C06": ("Ebu.Proofs.Shutdown\nimport Ebu.Model.Inflight\nimport Ebu.Generated.Consts\nimport Ebu.Props.C03", """/-! ### the counter behind `Wait` (M2w) and what the CURRENT source does with its condition variable -/
+ "C06": ("Ebu.Proofs.Shutdown\nimport Ebu.Model.Inflight\nimport Ebu.Generated.Consts\nimport Ebu.Props.C03Facts", """/-! ### the counter behind `Wait` (M2w) and what the CURRENT source does with its condition variable -/
 
 /-- the wake-up discipline of the source, read off `inflight.done` on every run -/
 def sourceWake : Ebu.Inflight.Wake :=
@@ -227,7 +227,7 @@ theorem shutdown_blocks_iff (s : Ebu.Shutdown.S) (pick : Bool) :
     Ebu.Shutdown.shutdown s pick = none ↔ (s.inflight ≠ 0 ∧ s.cancelled = false) :=
   Ebu.Shutdown.shutdown_blocks_iff s pick
 """),
- "C09": ("Ebu.Props.C03\nimport Ebu.Proofs.PersistConc", """/-! ### N publishers, every schedule (M2p, `Ebu/Model/PersistConc.lean`) -/
+ "C09": ("Ebu.Props.C03Facts\nimport Ebu.Proofs.PersistConc", """/-! ### N publishers, every schedule (M2p, `Ebu/Model/PersistConc.lean`) -/
 
 /-- for any number of concurrent publishers and EVERY schedule: the offsets in the log are 1, 2, 3, … (distinct,
 strictly increasing in log order) and `lastOffset` is the last one handed out -/
@@ -257,14 +257,14 @@ theorem appends_serialised : Ebu.Locks.CallbacksOk Ebu.Generated.callbackFacts =
     ((([0, 1, 0, 1].foldl Ebu.PersistConc.ustepAt { threads := [{ record := 7 }, { record := 8 }] }).log.map (·.1)) = [1, 1]) :=
   ⟨Ebu.Props.C03.facts_callbacks_lock_free, Ebu.PersistConc.unlocked_duplicates_offsets⟩
 """),
- "C09-old": ("Ebu.Props.C03", """/-- N publishes from any number of goroutines give N records with strictly increasing offsets
+ "C09-old": ("Ebu.Props.C03Facts", """/-- N publishes from any number of goroutines give N records with strictly increasing offsets
 because `persistEvent` calls `store.Append` and updates `lastOffset` inside one `storeMu` critical
 section in the CURRENT source (fact table regenerated from persist.go on every run): appends are
 serialised, so the sequential theorem `offsets_increasing` applies to every interleaving -/
 theorem appends_serialised : Ebu.Locks.CallbacksOk Ebu.Generated.callbackFacts = true :=
   Ebu.Props.C03.facts_callbacks_lock_free
 """),
- "C10": ("Ebu.Props.C03\nimport Ebu.Proofs.PersistConc\nimport Ebu.Generated.SqlFacts", """/-- concurrent appenders, every schedule (M2p read as "threads calling MemoryStore.Append": reserve-and-insert is
+ "C10": ("Ebu.Props.C03Facts\nimport Ebu.Proofs.PersistConc\nimport Ebu.Generated.SqlFacts", """/-- concurrent appenders, every schedule (M2p read as "threads calling MemoryStore.Append": reserve-and-insert is
 one step because both happen under the store's write lock, see `memory_store_locked` below): offsets are handed out
 1, 2, 3, … in log order, one record per append, and without the lock two appenders can get the same offset -/
 theorem concurrent_appends_increasing (recs sched : List Nat) :
@@ -286,31 +286,31 @@ and "insert", so offsets increase in log order under every schedule -/
 theorem memory_store_locked : Ebu.Locks.Discipline Ebu.Generated.accessFacts = true :=
   Ebu.Props.C03.facts_discipline
 """),
- "C01": ("Ebu.Props.C03", """/-- `Subscribe appends`, `Unsubscribe removes exactly the first registration …` describe whole API calls: every
+ "C01": ("Ebu.Props.C03Facts", """/-- `Subscribe appends`, `Unsubscribe removes exactly the first registration …` describe whole API calls: every
 registry mutator of the CURRENT source looks up and updates `shard.handlers` inside ONE write-locked critical section
 (fact table regenerated on every run), so concurrent callers cannot lose or resurrect each other's registrations -/
 theorem registry_calls_atomic : Ebu.Locks.RegistryOpsAtomic Ebu.Generated.accessFacts = true :=
   Ebu.Props.C03.facts_registry_ops_atomic
 """),
- "C04": ("Ebu.Props.C03", """/-- the once claim is an atomic compare-and-swap on `executed` (the only location the CURRENT source accesses
+ "C04": ("Ebu.Props.C03Facts", """/-- the once claim is an atomic compare-and-swap on `executed` (the only location the CURRENT source accesses
 atomically, and it does so everywhere), and the retirement of a fired once handler – like every other registry update –
 happens inside ONE write-locked critical section, so a concurrent Unsubscribe cannot write a spent handler back -/
 theorem once_claim_and_retirement_atomic : Ebu.Locks.Discipline Ebu.Generated.accessFacts = true ∧
     Ebu.Locks.RegistryOpsAtomic Ebu.Generated.accessFacts = true :=
   ⟨Ebu.Props.C03.facts_discipline, Ebu.Props.C03.facts_registry_ops_atomic⟩
 """),
- "C07": ("Ebu.Props.C03", """/-- the ticket counter, the serving counter and the in-flight counter are only touched under their mutexes in the
+ "C07": ("Ebu.Props.C03Facts", """/-- the ticket counter, the serving counter and the in-flight counter are only touched under their mutexes in the
 CURRENT source (fact table regenerated on every run): tickets are handed out without lost updates, which is what the
 atomic `ticket` step of M2 assumes -/
 theorem ticket_counters_locked : Ebu.Locks.Discipline Ebu.Generated.accessFacts = true :=
   Ebu.Props.C03.facts_discipline
 """),
- "C02": ("Ebu.Props.C03", """/-- the atomic subscribe / removal steps of M2 are what the CURRENT source does: every registry mutator looks up
+ "C02": ("Ebu.Props.C03Facts", """/-- the atomic subscribe / removal steps of M2 are what the CURRENT source does: every registry mutator looks up
 and updates `shard.handlers` inside one write-locked critical section (fact table regenerated on every run) -/
 theorem registry_steps_atomic : Ebu.Locks.RegistryOpsAtomic Ebu.Generated.accessFacts = true :=
   Ebu.Props.C03.facts_registry_ops_atomic
 """),
- "C12": ("Ebu.Props.C03\nimport Ebu.Proofs.SaveConc\nimport Ebu.Generated.Consts", """/-! ### the saved offset under concurrent publishers (M5c, `Ebu/Model/SaveConc.lean`) -/
+ "C12": ("Ebu.Props.C03Facts\nimport Ebu.Proofs.SaveConc\nimport Ebu.Generated.Consts", """/-! ### the saved offset under concurrent publishers (M5c, `Ebu/Model/SaveConc.lean`) -/
 
 /-- under EVERY schedule of any number of concurrent publishes the values saved for a subscription never decrease
 and the saved position is the last value saved – given that "read the bus offset" and "save it" are one step -/
@@ -358,7 +358,7 @@ theorem offset_formats_match_source :
     fmt20 = digitsW Ebu.Generated.Consts.memOffsetWidth := by
   refine ⟨by decide, by decide, by decide, by decide, by decide, by decide, rfl⟩
 """),
- "C11": ("Ebu.Generated.Consts\nimport Ebu.Generated.SqlFacts\nimport Ebu.Props.C03", """/-- OBLIGATION on the current source: every SELECT over the events table (paged read, stream, batched stream) is a
+ "C11": ("Ebu.Generated.Consts\nimport Ebu.Generated.SqlFacts\nimport Ebu.Props.C03Facts", """/-- OBLIGATION on the current source: every SELECT over the events table (paged read, stream, batched stream) is a
 position cursor – `WHERE position > ? ORDER BY position`, optionally `LIMIT ?` – as the models of `Read`, the stream and
 `replaySqlBatched` assume; none pages with OFFSET (which counts rows instead of remembering where it was) -/
 theorem sqlite_reads_are_position_cursors :
@@ -442,7 +442,12 @@ EXTRAS3 = {
     fl("flow_handler_callbacks", "handlerBracket", "`OnHandlerStart` once before the call, `OnHandlerComplete` once inside the recovering `defer`, whether or not something was recovered") + "\n" +
     fl("flow_persist_callbacks", "persistShape", "`OnPersistStart` before and `OnPersistComplete` after the one append, once each")),
 }
-for extras in (EXTRAS, EXTRAS2, EXTRAS3):
+
+EXTRAS4 = {
+ "C06": ("Ebu.Proofs.ConcTrace", '/-! ### every asynchronous delivery runs exactly once (M2 with its trace, `Ebu/Spec/ConcTrace.lean`) -/\n\n/-- an async goroutine performs at most one asynchronous delivery – the one it was started for (right registration,\ntype and value) – under every schedule -/\ntheorem async_delivery_at_most_once (progs : List (List Ebu.Conc.Op)) (x : Ebu.Conc.SysT) (h : Ebu.Conc.ReachableT progs x)\n    (i : Nat) (th : Ebu.Conc.Thread) (j : Ebu.Conc.Job) (hi : x.s.ths[i]? = some th) (hj : th.job = some j) :\n    Ebu.Conc.asyncEntersOf i x.tr = [] ∨ Ebu.Conc.asyncEntersOf i x.tr = [Ebu.Conc.Obs.enter j.reg.rid j.ty j.v true] :=\n  Ebu.Conc.async_at_most_once h i th j hi hj\n\n/-- … and once the goroutine has finished it has performed it exactly once, provided the publish context is still live\n(contexts are only ever cancelled, so "live now" means "live throughout") -/\ntheorem async_delivery_exactly_once (progs : List (List Ebu.Conc.Op)) (x : Ebu.Conc.SysT) (h : Ebu.Conc.ReachableT progs x)\n    (i : Nat) (th : Ebu.Conc.Thread) (j : Ebu.Conc.Job) (hi : x.s.ths[i]? = some th) (hj : th.job = some j)\n    (hd : th.pc = .done) (hl : x.s.sh.live j.ctx = true) :\n    Ebu.Conc.asyncEntersOf i x.tr = [Ebu.Conc.Obs.enter j.reg.rid j.ty j.v true] :=\n  Ebu.Conc.async_exactly_once_when_done h i th j hi hj hd hl\n\n/-- every goroutine announced by the publisher exists, and the goroutines of the test program never perform an\nasynchronous delivery themselves -/\ntheorem spawned_goroutines_exist (progs : List (List Ebu.Conc.Op)) (x : Ebu.Conc.SysT) (h : Ebu.Conc.ReachableT progs x) :\n    (x.tr.filter (fun p => match p.2 with | .spawned _ => true | _ => false)).length =\n      (x.s.ths.filter (fun th => th.job.isSome)).length :=\n  Ebu.Conc.spawned_count h\n\n/-- LIVENESS at the end of every maximal run: under the rank hypothesis (the one documented exception of C03) a state\nfrom which no goroutine can step is quiescent – every goroutine has finished, nothing is in flight – and every\nasynchronous delivery whose publish context is live has run exactly once; in particular a goroutine blocked in `Wait`\nis never left behind -/\ntheorem maximal_run_delivers_everything (ρ : Nat → Nat) (progs : List (List Ebu.Conc.Op)) (hr : Ebu.Conc.Ranked ρ progs)\n    (x : Ebu.Conc.SysT) (h : Ebu.Conc.ReachableT progs x) (hmax : ¬ x.s.canStep) :\n    x.s.allDone ∧ x.s.sh.inflight = 0 ∧\n    ∀ i th j, x.s.ths[i]? = some th → th.job = some j → x.s.sh.live j.ctx = true →\n      Ebu.Conc.asyncEntersOf i x.tr = [Ebu.Conc.Obs.enter j.reg.rid j.ty j.v true] :=\n  Ebu.Conc.maximal_run_delivers_everything ρ progs hr h hmax\n\n/-- the traced system is the plain one with bookkeeping: the two reachability notions coincide -/\ntheorem trace_is_bookkeeping (progs : List (List Ebu.Conc.Op)) :\n    (∀ x, Ebu.Conc.ReachableT progs x → Ebu.Conc.Reachable progs x.s) ∧\n    (∀ s, Ebu.Conc.Reachable progs s → ∃ tr, Ebu.Conc.ReachableT progs ⟨s, tr⟩) :=\n  ⟨fun _ h => Ebu.Conc.reachableT_reachable h, fun _ h => Ebu.Conc.reachable_has_trace h⟩\n\n/-- why deliveries are counted with `asyncEntersOf`: the goroutine of an async handler also enters the synchronous\nhandlers of what that handler publishes -/\ntheorem nested_sync_entries_are_not_deliveries :\n    ∃ progs x i th j, Ebu.Conc.ReachableT progs x ∧ x.s.ths[i]? = some th ∧ th.job = some j ∧ th.pc = .done ∧\n      x.s.sh.live j.ctx = true ∧\n      ¬(Ebu.Conc.entersOf i x.tr = [] ∨ Ebu.Conc.entersOf i x.tr = [Ebu.Conc.Obs.enter j.reg.rid j.ty j.v true]) ∧\n      Ebu.Conc.asyncEntersOf i x.tr = [Ebu.Conc.Obs.enter j.reg.rid j.ty j.v true] :=\n  Ebu.Conc.entersOf_counterexample\n'),
+ "C07": ("Ebu.Proofs.ConcTrace", '/-! ### every event dispatched to an Async(+Sequential) handler is delivered exactly once (M2 with its trace) -/\n\n/-- the goroutine started for one event of an Async (+Sequential) handler delivers exactly that event to exactly that\nregistration, at most once – and exactly once when it has finished and the publish context is live -/\ntheorem async_sequential_delivery_exactly_once (progs : List (List Ebu.Conc.Op)) (x : Ebu.Conc.SysT)\n    (h : Ebu.Conc.ReachableT progs x) (i : Nat) (th : Ebu.Conc.Thread) (j : Ebu.Conc.Job)\n    (hi : x.s.ths[i]? = some th) (hj : th.job = some j) :\n    (Ebu.Conc.asyncEntersOf i x.tr = [] ∨ Ebu.Conc.asyncEntersOf i x.tr = [Ebu.Conc.Obs.enter j.reg.rid j.ty j.v true]) ∧\n    (th.pc = .done → x.s.sh.live j.ctx = true →\n      Ebu.Conc.asyncEntersOf i x.tr = [Ebu.Conc.Obs.enter j.reg.rid j.ty j.v true]) :=\n  ⟨Ebu.Conc.async_at_most_once h i th j hi hj, fun hd hl => Ebu.Conc.async_exactly_once_when_done h i th j hi hj hd hl⟩\n\n/-- no goroutine waits for a turn or a Sequential mutex for ever: under the rank hypothesis every maximal run ends with\nevery goroutine finished -/\ntheorem no_invocation_starves (ρ : Nat → Nat) (progs : List (List Ebu.Conc.Op)) (hr : Ebu.Conc.Ranked ρ progs)\n    (x : Ebu.Conc.SysT) (h : Ebu.Conc.ReachableT progs x) (hmax : ¬ x.s.canStep) : x.s.allDone :=\n  (Ebu.Conc.maximal_run_delivers_everything ρ progs hr h hmax).1\n'),
+}
+for extras in (EXTRAS, EXTRAS2, EXTRAS3, EXTRAS4):
     for prop, (imp, text) in extras.items():
         if prop.endswith("-old"): continue
         if ONLY and prop not in ONLY: continue
